@@ -24,7 +24,7 @@ def _seq(n, salt):
 
 HAP_PATTERNS = ["none", "one", "touching2", "separated2", "separated2+second", "touching+separated3"]
 HAP_A = "hA#1#ctg"
-HAP_B = "hB#2#ctg"
+HAP_B = "hB-2#ctg"  # a contig name with a dash (the interval syntax uses one too)
 
 
 def tilings(max_segments):
